@@ -45,10 +45,34 @@ type waitReg struct {
 
 // Choice is one recorded decision.
 type Choice struct {
-	N    int  // number of alternatives
-	Pick int  // chosen alternative
-	Cost bool // true: alternative i costs i deviations (scheduling); false: free
+	N    int // number of alternatives
+	Pick int // chosen alternative
+	// Kind: KindSched = alternative i costs i deviations (i-th enabled thread in canonical
+	// order); KindRace = a non-default alternative costs 1 deviation (which ready select case
+	// fires, which rendezvous partner is taken); KindEnv = free (scripted environment
+	// parameters such as the closing point or a chunk boundary: enumerated completely)
+	Kind int
 	What string
+}
+
+// Choice kinds.
+const (
+	KindSched = iota
+	KindRace
+	KindEnv
+)
+
+// CostOf is the deviation cost of taking alternative alt of a choice of this kind.
+func CostOf(kind, alt int) int {
+	switch kind {
+	case KindSched:
+		return alt
+	case KindRace:
+		if alt > 0 {
+			return 1
+		}
+	}
+	return 0
 }
 
 // Options configure one exploration.
@@ -105,7 +129,7 @@ var Epoch = time.Date(2026, 1, 1, 0, 0, 0, 0, time.UTC)
 // Divergence is thrown when a replayed prefix does not fit the execution.
 type Divergence struct{ Msg string }
 
-func (s *Sched) choose(n int, cost bool, what string) int {
+func (s *Sched) choose(n int, kind int, what string) int {
 	if n <= 1 {
 		return 0
 	}
@@ -117,10 +141,8 @@ func (s *Sched) choose(n int, cost bool, what string) int {
 			panic(Divergence{fmt.Sprintf("choice %d (%s): recorded pick %d but only %d alternatives", k, what, pick, n)})
 		}
 	}
-	if cost {
-		s.used += pick
-	}
-	s.Trace = append(s.Trace, Choice{N: n, Pick: pick, Cost: cost, What: what})
+	s.used += CostOf(kind, pick)
+	s.Trace = append(s.Trace, Choice{N: n, Pick: pick, Kind: kind, What: what})
 	return pick
 }
 
@@ -209,7 +231,7 @@ func (s *Sched) pick() *Thread {
 			s.End = "pruned"
 			return nil
 		}
-		i := s.choose(n, true, "sched")
+		i := s.choose(n, KindSched, "sched")
 		if i == len(en) {
 			s.fireTimer()
 			continue
@@ -415,10 +437,10 @@ func LibThreadsDone() bool {
 func Await(what string, pred func() bool) { S.op(what, pred, nil) }
 
 // Choose is a free environment choice among n alternatives (enumerated exhaustively).
-func Choose(n int, what string) int { return S.choose(n, false, what) }
+func Choose(n int, what string) int { return S.choose(n, KindEnv, what) }
 
 // ChooseCost is an environment choice where alternative i costs i deviations.
-func ChooseCost(n int, what string) int { return S.choose(n, true, what) }
+func ChooseCost(n int, what string) int { return S.choose(n, KindSched, what) }
 
 // Finish ends the execution from a scenario thread (the scenario reached its end).
 func Finish() {
